@@ -6,6 +6,9 @@ ALL = ["C%02d" % i for i in range(1, 21)]
 
 # id -> (engine, technique, level text, level note, design ref)
 CHECKS = {
+ "C14": ("pbt", "seeded proptest round-trip (parse . generate = id) + accept/reject reference model of the request line",
+         "Exploration: 50k (quick) / 2M (thorough) generated well-formed requests are serialised by the library and parsed back, compared field by field; 40k / 2M raw messages (request-line near misses, arbitrary UTF-8 heads, junk Content-Length) are judged by the harness's accept/reject model. Failures shrink to a minimal request. Sampling, not proof: absence of a counterexample in the grammar explored.",
+         "Trusts Request::generate as the serialiser under test and the harness's request-line model; classes the statement leaves open (lower case, extra spaces, empty target pinned by the unit tests, later non-UTF-8 header lines) assert totality only.", "DESIGN.md §4 C14"),
  "C18": ("pbt", "exhaustive enumeration of 0-3-byte groups + seeded proptest round-trip against a reference RFC 4648 encoder",
          "Exploration with an exhaustive core: quick enumerates every input of length 0-2 and a 48^3 boundary cube of 3-byte groups, thorough every input of length 0-3 (16,843,009, flagged exhaustive in evidence); random strings cover every length residue; decoder negatives are sampled. The encoder works group by group, so the exhaustive core decides the encoder for all inputs up to concatenation; the rest is sampled.",
          "Trusts the harness's own 20-line RFC 4648 encoder (self-tested against the RFC vectors at start-up).", "DESIGN.md §4 C18"),
